@@ -182,7 +182,7 @@ Proof. exact rebuild_same_for_validation. Qed.
     With C13_noninterference in mind: a consumer that sees the schema only through these lookups
     and does not depend on map order computes the same on R and on (S, F).  What stays outside:
     the validator itself (C04's model), the presence of argument defaults (not part of C13's
-    lookups; it is part of [canon], previous theorem), introspection's own listings (QIntro*). *)
+    lookups; it is part of [canon], previous theorem), introspection's own listings (the QIntro queries). *)
 Theorem C10_rebuild_same_lookups : forall S F r,
   depth_ok S = true -> interfaces_declared_once S = true -> locations_known S = true ->
   refs_defined S = true -> gating_nested S = true -> roots_visible S F = true ->
